@@ -18,7 +18,7 @@ pub fn c15_check<L: KeyboardLayout>(name: &str, dec: &str, l: &L) {
     let m = any_mods();
     let h = any_mode();
     let out = l.map_keycode(k, &m, h);
-    println!("C15 {} key={:?} mods={:?} mode={:?} out={:?}", name, k, m, h, out);
+    crate::show!("C15 {} key={:?} mods={:?} mode={:?} out={:?}", name, k, m, h, out);
     if let Some((digit, alias)) = numpad_digit(k) {
         if m.numlock {
             assert!(out == DecodedKey::Unicode(digit), "C15: numpad digit with NumLock on");
